@@ -1,5 +1,6 @@
 import AmcVerif.Gen.FlatSetGen
 import AmcVerif.Model.Sets
+import AmcVerif.Lemmas.FlatSetInv
 /-! Tie between `include/amc/flatset.hpp` and the hand-written FlatSet model (`Model/Sets.lean`).
 
 `Gen/FlatSetGen.lean` is regenerated from the header by `translator/flatset2lean.py` on every run.  The theorems below state
@@ -9,8 +10,8 @@ comparator or on the order of the list is needed; the only hypothesis is `h ≤ 
 (the precondition `begin() <= hint <= end()` of the C++ function, its `assert`).  A change of the decision logic in the
 header changes the generated definitions and breaks these proofs. -/
 namespace AmcVerif.Bridge.FlatSet
-open AmcVerif AmcVerif.Sets
-variable {α : Type}
+open AmcVerif AmcVerif.FS AmcVerif.Sets
+variable {α : Type} {lt : α → α → Bool}
 
 /-- the halving loop stays inside its window (unconditionally) -/
 theorem lowerBound_range (lt : α → α → Bool) (l : List α) (v : α) (k : Nat) :
@@ -133,7 +134,7 @@ theorem erase_eq (lt : α → α → Bool) (l : List α) (k : α) :
   | some i =>
     have := findC_some_lt lt l k i (by rw [hf])
     have hne : ¬ (i = l.length) := by omega
-    simp [findIdx, hne]
+    simp [findIdx, hne, this]
 
 /-! ### `insert(value)` -/
 
@@ -311,5 +312,878 @@ theorem emplace_hint_eq (lt : α → α → Bool) (l : List α) (h : Nat) (hh : 
     Gen.FlatSet.emplace_hint lt l h v = some (insertHintC lt l h v) := by
   unfold Gen.FlatSet.emplace_hint
   rw [insert_at_rv_eq lt l h hh v]
+
+/-! ## Task T8: the remaining members
+
+### `erase(position)`, `erase(first, last)`, `clear`, `size`, `empty`
+
+Hypotheses `i < l.length` / `a ≤ b ≤ l.length`: the preconditions of the C++ functions (a dereferenceable iterator, a valid range of
+this set); without them the generated functions return `none` (`_sortedVector.erase` outside `[begin, end)`).  The hand-written
+model has no function of its own for these members (it uses `List.eraseIdx` directly): the theorems are direct specifications. -/
+
+theorem erase_at_eq (lt : α → α → Bool) (l : List α) (i : Nat) (hi : i < l.length) :
+    Gen.FlatSet.erase_at lt l i = some (l.eraseIdx i, i, 0) := by
+  simp [Gen.FlatSet.erase_at, hi]
+
+theorem erase_at_none (lt : α → α → Bool) (l : List α) (i : Nat) (hi : l.length ≤ i) :
+    Gen.FlatSet.erase_at lt l i = none := by
+  have : ¬ i < l.length := by omega
+  simp [Gen.FlatSet.erase_at, this]
+
+theorem erase_range_eq (lt : α → α → Bool) (l : List α) (a b : Nat) (hab : a ≤ b) (hb : b ≤ l.length) :
+    Gen.FlatSet.erase_range lt l a b = some (l.take a ++ l.drop b, a, 0) := by
+  simp [Gen.FlatSet.erase_range, hab, hb]
+
+/-- erasing the range `[i, i+1)` is erasing position `i` -/
+theorem erase_range_one (lt : α → α → Bool) (l : List α) (i : Nat) (hi : i < l.length) :
+    Gen.FlatSet.erase_range lt l i (i + 1) = Gen.FlatSet.erase_at lt l i := by
+  rw [erase_range_eq lt l i (i + 1) (by omega) (by omega), erase_at_eq lt l i hi, List.eraseIdx_eq_take_drop_succ]
+
+theorem clear_eq (lt : α → α → Bool) (l : List α) : Gen.FlatSet.clear lt l = some ([], (), 0) := rfl
+
+theorem size_eq (lt : α → α → Bool) (l : List α) : Gen.FlatSet.size lt l = some (l.length, 0) := rfl
+
+theorem empty_eq (lt : α → α → Bool) (l : List α) : Gen.FlatSet.empty lt l = some (decide (l.length = 0), 0) := rfl
+
+/-! ### `swap`, comparison operators
+
+`swap` exchanges the contents AND the comparator objects.  `==` / `<` are those of the underlying vector: `std::equal` on equal
+sizes / `std::lexicographical_compare` with the operators `eqT` / `ltT` of the ELEMENT type, not the comparator of the set. -/
+
+theorem swap_eq (lt lt_o : α → α → Bool) (l o : List α) :
+    Gen.FlatSet.swap lt l lt_o o = some (lt_o, o, lt, l, (), 0) := rfl
+
+theorem op_eq_eq (lt lt_o eqT : α → α → Bool) (l o : List α) :
+    Gen.FlatSet.op_eq lt l lt_o o eqT = some (Gen.FlatSet.vecEq eqT l o, 0) := rfl
+
+theorem op_ne_eq (lt lt_o eqT : α → α → Bool) (l o : List α) :
+    Gen.FlatSet.op_ne lt l lt_o o eqT = some (!Gen.FlatSet.vecEq eqT l o, 0) := by
+  unfold Gen.FlatSet.op_ne
+  rw [op_eq_eq]
+  cases Gen.FlatSet.vecEq eqT l o <;> rfl
+
+theorem op_lt_eq (lt lt_o ltT : α → α → Bool) (l o : List α) :
+    Gen.FlatSet.op_lt lt l lt_o o ltT = some (Gen.FlatSet.vecLess ltT l o, 0) := rfl
+
+theorem op_gt_eq (lt lt_o ltT : α → α → Bool) (l o : List α) :
+    Gen.FlatSet.op_gt lt l lt_o o ltT = some (Gen.FlatSet.vecLess ltT o l, 0) := by
+  unfold Gen.FlatSet.op_gt
+  rw [op_lt_eq]
+
+theorem op_le_eq (lt lt_o ltT : α → α → Bool) (l o : List α) :
+    Gen.FlatSet.op_le lt l lt_o o ltT = some (!Gen.FlatSet.vecLess ltT o l, 0) := by
+  unfold Gen.FlatSet.op_le
+  rw [op_lt_eq]
+  cases Gen.FlatSet.vecLess ltT o l <;> rfl
+
+theorem op_ge_eq (lt lt_o ltT : α → α → Bool) (l o : List α) :
+    Gen.FlatSet.op_ge lt l lt_o o ltT = some (!Gen.FlatSet.vecLess ltT l o, 0) := by
+  unfold Gen.FlatSet.op_ge
+  rw [op_lt_eq]
+  cases Gen.FlatSet.vecLess ltT l o <;> rfl
+
+/-- `vecEq` with a decidable equality of the elements is equality of the sequences -/
+theorem vecEq_decide [DecidableEq α] (l o : List α) :
+    Gen.FlatSet.vecEq (fun a b => decide (a = b)) l o = decide (l = o) := by
+  induction l generalizing o with
+  | nil => cases o <;> simp [Gen.FlatSet.vecEq]
+  | cons a t ih =>
+    cases o with
+    | nil => simp [Gen.FlatSet.vecEq]
+    | cons b u =>
+      simp only [Gen.FlatSet.vecEq, ih, List.cons.injEq]
+      by_cases hab : a = b <;> by_cases htu : t = u <;> simp [hab, htu]
+
+/-- `vecLess` is irreflexive when the element order is -/
+theorem vecLess_irrefl (ltT : α → α → Bool) (hirr : ∀ a, ltT a a = false) (l : List α) :
+    Gen.FlatSet.vecLess ltT l l = false := by
+  induction l with
+  | nil => rfl
+  | cons a t ih => simp [Gen.FlatSet.vecLess, hirr, ih]
+
+/-- `vecLess` is the lexicographic order `List.lex` of the core library when `==` of the elements is "neither is less" -/
+theorem vecLess_eq_lex [BEq α] (ltT : α → α → Bool) (hasym : ∀ a b, ltT a b = true → ltT b a = false)
+    (heq : ∀ a b, (a == b) = (!ltT a b && !ltT b a)) (l o : List α) :
+    Gen.FlatSet.vecLess ltT l o = List.lex l o ltT := by
+  induction l generalizing o with
+  | nil => cases o <;> simp [Gen.FlatSet.vecLess, List.lex]
+  | cons a t ih =>
+    cases o with
+    | nil => simp [Gen.FlatSet.vecLess, List.lex]
+    | cons b u =>
+      simp only [Gen.FlatSet.vecLess, List.lex, ih, heq]
+      cases hab : ltT a b
+      · cases hba : ltT b a <;> simp
+      · simp [hasym a b hab]
+
+/-! ### node handles: `mfind`, `extract(key)`, `extract(position)`, `insert(node)`, `insert(hint, node)`
+
+A node handle is an `Option α`.  `insert(node_type&&)` returns `{position, inserted, node}`; `insert(hint, node_type&&)` returns the
+position and leaves the node in its argument (emptied iff the size of the set changed). -/
+
+theorem mfind_eq (lt : α → α → Bool) (l : List α) (k : α) :
+    Gen.FlatSet.mfind lt l k = some (l, findIdx l (findC lt l k).1, (findC lt l k).2) := by
+  have hle := lowerBound_le lt l k 0 l.length
+  unfold Gen.FlatSet.mfind findC
+  generalize lowerBound lt l k 0 l.length = p at hle
+  obtain ⟨i, c⟩ := p
+  simp only at hle ⊢
+  by_cases hi : i = l.length
+  · subst hi; simp [findIdx]
+  · obtain ⟨x, hx⟩ := getElem?_of_lt l i (by omega)
+    simp only [hi, hx, if_false]
+    cases lt k x <;> simp [findIdx]
+
+/-- the model of `extract(key)`: the element found leaves the set and is handed out in the node -/
+def extractR (lt : α → α → Bool) (l : List α) (k : α) : List α × Option α × Nat :=
+  match (findC lt l k).1 with
+  | some i => (l.eraseIdx i, l[i]?, (findC lt l k).2)
+  | none => (l, none, (findC lt l k).2)
+
+theorem extract_eq (lt : α → α → Bool) (l : List α) (k : α) :
+    Gen.FlatSet.extract lt l k = some (extractR lt l k) := by
+  unfold Gen.FlatSet.extract extractR
+  rw [mfind_eq]
+  cases hf : (findC lt l k).1 with
+  | none => simp [findIdx]
+  | some i =>
+    have hlt := findC_some_lt lt l k i hf
+    have hne : ¬ (i = l.length) := by omega
+    obtain ⟨x, hx⟩ := getElem?_of_lt l i hlt
+    simp [findIdx, hne, hx]
+
+/-- content of `extract(key)` = content of `erase(key)` -/
+theorem extract_content (lt : α → α → Bool) (l : List α) (k : α) : (extractR lt l k).1 = (eraseKey lt l k).1 := by
+  unfold extractR eraseKey
+  generalize findC lt l k = p
+  obtain ⟨r, c⟩ := p
+  cases r <;> rfl
+
+theorem extract_at_eq (lt : α → α → Bool) (l : List α) (i : Nat) (hi : i < l.length) :
+    Gen.FlatSet.extract_at lt l i = some (l.eraseIdx i, l[i]?, 0) := by
+  obtain ⟨x, hx⟩ := getElem?_of_lt l i hi
+  simp [Gen.FlatSet.extract_at, hx]
+
+/-- the model of `insert(node_type&&)`: `{position, inserted, node}`; a refused node keeps its value -/
+def insertNodeR (lt : α → α → Bool) (l : List α) (nh : Option α) : List α × (Nat × Bool × Option α) × Nat :=
+  match nh with
+  | none => (l, (l.length, false, none), 0)
+  | some v => ((insertValR lt l v).1,
+               ((insertValR lt l v).2.1.1, (insertValR lt l v).2.1.2, if (insertValR lt l v).2.1.2 then none else some v),
+               (insertValR lt l v).2.2)
+
+theorem insert_node_eq (lt : α → α → Bool) (l : List α) (nh : Option α) :
+    Gen.FlatSet.insert_node lt l nh = some (insertNodeR lt l nh) := by
+  unfold Gen.FlatSet.insert_node insertNodeR
+  cases nh with
+  | none => rfl
+  | some v =>
+    simp only [insert_rv_eq]
+    cases (insertValR lt l v).2.1.2 <;> simp
+
+/-- the model of `insert(hint, node_type&&)`: (content, (position, node left to the caller), calls): the node is emptied
+    iff the size of the set has changed -/
+def insertNodeAtR (lt : α → α → Bool) (l : List α) (h : Nat) (nh : Option α) : List α × (Nat × Option α) × Nat :=
+  match nh with
+  | none => (l, (l.length, none), 0)
+  | some v => ((insertHintC lt l h v).1,
+               ((insertHintC lt l h v).2.1, if (insertHintC lt l h v).1.length = l.length then some v else none),
+               (insertHintC lt l h v).2.2)
+
+theorem insert_node_at_eq (lt : α → α → Bool) (l : List α) (h : Nat) (hh : h ≤ l.length) (nh : Option α) :
+    Gen.FlatSet.insert_node_at lt l h nh = some (insertNodeAtR lt l h nh) := by
+  unfold Gen.FlatSet.insert_node_at insertNodeAtR
+  cases nh with
+  | none => rfl
+  | some v =>
+    simp only [size_eq, insert_at_rv_eq lt l h hh v]
+    by_cases hl : (insertHintC lt l h v).1.length = l.length <;> simp [hl]
+
+/-! ### the bulk paths: `std::stable_sort` + `std::inplace_merge` + `std::unique` = inserting one by one in input order -/
+
+/-- the "not greater" relation of a comparator, the order the library algorithms sort by -/
+def leOf (lt : α → α → Bool) : α → α → Bool := fun a b => !lt b a
+
+theorem leOf_trans (hswo : SWO lt) : ∀ a b c, leOf lt a b = true → leOf lt b c = true → leOf lt a c = true := by
+  intro a b c h1 h2
+  simp only [leOf, Bool.not_eq_true'] at *
+  cases h : lt c a with
+  | false => rfl
+  | true =>
+    rcases hswo.cotrans c b a h with h' | h'
+    · rw [h2] at h'; cases h'
+    · rw [h1] at h'; cases h'
+
+theorem leOf_total (hswo : SWO lt) : ∀ a b, (leOf lt a b || leOf lt b a) = true := by
+  intro a b
+  simp only [leOf]
+  cases h : lt b a with
+  | false => simp
+  | true => simp [hswo.asymm h]
+
+/-- insertion before the first element that is not below `a` (lower bound) -/
+def insL (lt : α → α → Bool) (a : α) : List α → List α
+  | [] => [a]
+  | b :: t => if lt b a then b :: insL lt a t else a :: b :: t
+
+/-- insertion before the first element that is above `w` (upper bound) -/
+def insU (lt : α → α → Bool) (w : α) : List α → List α
+  | [] => [w]
+  | b :: t => if lt w b then w :: b :: t else b :: insU lt w t
+
+/-- `FlatSet::insert_val` on the content, written recursively -/
+def insV (lt : α → α → Bool) (w : α) : List α → List α
+  | [] => [w]
+  | b :: t => if lt b w then b :: insV lt w t else if lt w b then w :: b :: t else b :: t
+
+theorem insertVal_eq_insV (lt : α → α → Bool) (u : List α) (w : α) : (insertVal lt u w).1 = insV lt w u := by
+  induction u with
+  | nil => simp [insertVal, lowerIdx, insV]
+  | cons b t ih =>
+    unfold insertVal at ih ⊢
+    simp only [lowerIdx, insV] at ih ⊢
+    cases hb : lt b w
+    · simp only [List.takeWhile, hb, List.length_nil, List.getElem?_cons_zero, Bool.false_eq_true, if_false]
+      cases hwb : lt w b <;> simp
+    · simp only [List.takeWhile, hb, List.length_cons, List.getElem?_cons_succ, if_true]
+      rw [← ih]
+      cases hx : t[(List.takeWhile (fun x => lt x w) t).length]? with
+      | none => simp [List.insertIdx_succ_cons]
+      | some x => cases hwx : lt w x <;> simp [hwx, List.insertIdx_succ_cons]
+
+theorem insertAll_eq_foldl_insV (lt : α → α → Bool) (vs : List α) :
+    ∀ l, insertAll lt l vs = vs.foldl (fun acc w => insV lt w acc) l := by
+  induction vs with
+  | nil => intro l; rfl
+  | cons v rest ih => intro l; simp only [insertAll, List.foldl_cons] at ih ⊢; rw [insertVal_eq_insV]; exact ih _
+
+theorem insL_append (a : α) (l₁ l₂ : List α) (h1 : ∀ b ∈ l₁, lt b a = true) (h2 : ∀ b ∈ l₂, lt b a = false) :
+    insL lt a (l₁ ++ l₂) = l₁ ++ a :: l₂ := by
+  induction l₁ with
+  | nil =>
+    cases l₂ with
+    | nil => rfl
+    | cons b t => simp [insL, h2 b (by simp)]
+  | cons x t ih =>
+    simp only [List.cons_append, insL, h1 x (by simp), if_true]
+    rw [ih (fun b hb => h1 b (List.mem_cons_of_mem _ hb))]
+
+/-- the stable sort of the core library inserts the head before the first element that is not below it -/
+theorem mergeSort_cons_insL (hswo : SWO lt) (a : α) (l : List α) :
+    (a :: l).mergeSort (leOf lt) = insL lt a (l.mergeSort (leOf lt)) := by
+  obtain ⟨l₁, l₂, h1, h2, h3⟩ := List.mergeSort_cons (leOf_trans hswo) (leOf_total hswo) a l
+  have hp := List.pairwise_mergeSort (leOf_trans hswo) (leOf_total hswo) (a :: l)
+  rw [h1] at hp
+  rw [h1, h2]
+  symm
+  apply insL_append
+  · intro b hb
+    have := h3 b hb
+    simpa [leOf] using this
+  · intro b hb
+    have hp2 := (List.pairwise_append.mp hp).2.1
+    have := (List.pairwise_cons.mp hp2).1 b hb
+    simpa [leOf] using this
+
+theorem mergeSort_eq_foldr (hswo : SWO lt) (l : List α) : l.mergeSort (leOf lt) = l.foldr (insL lt) [] := by
+  induction l with
+  | nil => simp
+  | cons a t ih => rw [mergeSort_cons_insL hswo, ih]; rfl
+
+/-- merging a sorted `a :: l` into `S`: `a` goes before the first element of the merge of `l` and `S` that is not below it -/
+theorem merge_cons_insL (hswo : SWO lt) (a : α) (l : List α) (h : ∀ x ∈ l, lt x a = false) :
+    ∀ S, List.merge (a :: l) S (leOf lt) = insL lt a (List.merge l S (leOf lt)) := by
+  intro S
+  induction S with
+  | nil =>
+    cases l with
+    | nil => simp [insL]
+    | cons x t => simp [insL, h x (by simp)]
+  | cons b S' ih =>
+    cases hba : lt b a
+    · -- a <= b : a first
+      have hle : leOf lt a b = true := by simp [leOf, hba]
+      rw [List.cons_merge_cons_pos _ _ _ hle]
+      cases l with
+      | nil => simp [insL, hba]
+      | cons x t =>
+        rw [List.cons_merge_cons]
+        split <;> simp [insL, hba, h x (by simp)]
+    · -- b < a : b first, on both sides
+      have hle : ¬ (leOf lt a b = true) := by simp [leOf, hba]
+      rw [List.cons_merge_cons_neg _ _ _ hle, ih]
+      cases l with
+      | nil => simp [insL, hba]
+      | cons x t =>
+        have hbx : lt b x = true := by
+          rcases hswo.cotrans b x a hba with h' | h'
+          · exact h'
+          · rw [h x (by simp)] at h'; cases h'
+        have hle2 : ¬ (leOf lt x b = true) := by simp [leOf, hbx]
+        rw [List.cons_merge_cons_neg _ _ _ hle2]
+        simp [insL, hba]
+
+theorem merge_eq_foldr (hswo : SWO lt) (l : List α) (hl : l.Pairwise (fun a b => leOf lt a b = true)) (S : List α) :
+    List.merge l S (leOf lt) = l.foldr (insL lt) S := by
+  induction l with
+  | nil => simp
+  | cons a t ih =>
+    rw [List.pairwise_cons] at hl
+    rw [merge_cons_insL hswo a t (fun x hx => by simpa [leOf] using hl.1 x hx), ih hl.2]
+    rfl
+
+theorem insL_insU_comm (hswo : SWO lt) (a w : α) (m : List α) :
+    insL lt a (insU lt w m) = insU lt w (insL lt a m) := by
+  induction m with
+  | nil =>
+    simp only [insL, insU]
+  | cons b t ih =>
+    simp only [insL, insU]
+    cases hwb : lt w b
+    · cases hba : lt b a
+      · simp only [Bool.false_eq_true, if_false, insL, insU, hba, hwb]
+        cases hwa : lt w a
+        · simp
+        · -- w < a <= b <= w : impossible
+          rcases hswo.cotrans w b a hwa with h' | h'
+          · rw [hwb] at h'; cases h'
+          · rw [hba] at h'; cases h'
+      · simp [insL, insU, hba, hwb, ih]
+    · cases hba : lt b a
+      · simp only [if_true, Bool.false_eq_true, if_false, insL, insU, hba, hwb]
+      · have hwa : lt w a = true := hswo.trans _ _ _ hwb hba
+        simp [insL, insU, hba, hwb, hwa]
+
+theorem foldr_insL_snoc (hswo : SWO lt) (ws : List α) (w : α) :
+    (ws ++ [w]).foldr (insL lt) [] = insU lt w (ws.foldr (insL lt) []) := by
+  induction ws with
+  | nil => rfl
+  | cons v t ih => simp only [List.cons_append, List.foldr_cons, ih, insL_insU_comm hswo]
+
+/-- the stable sort as the usual insertion sort: elements taken in input order, each put after the elements not above it -/
+theorem foldr_insL_eq_foldl_insU (hswo : SWO lt) (ws : List α) :
+    ∀ pre : List α, ws.foldl (fun acc w => insU lt w acc) (pre.foldr (insL lt) []) = (pre ++ ws).foldr (insL lt) [] := by
+  induction ws with
+  | nil => intro pre; simp
+  | cons w t ih =>
+    intro pre
+    simp only [List.foldl_cons]
+    rw [← foldr_insL_snoc hswo, ih]
+    simp
+
+theorem mem_insU (w : α) (m : List α) (y : α) : y ∈ insU lt w m ↔ y = w ∨ y ∈ m := by
+  induction m with
+  | nil => simp [insU]
+  | cons b t ih =>
+    simp only [insU]
+    split
+    · simp
+    · simp only [List.mem_cons, ih]
+      constructor
+      · rintro (h | h | h) <;> simp [h]
+      · rintro (h | h | h) <;> simp [h]
+
+theorem insU_pairwise (hswo : SWO lt) (w : α) (m : List α) (hm : m.Pairwise (fun a b => leOf lt a b = true)) :
+    (insU lt w m).Pairwise (fun a b => leOf lt a b = true) := by
+  induction m with
+  | nil => simp [insU]
+  | cons b t ih =>
+    rw [List.pairwise_cons] at hm
+    simp only [insU]
+    cases hwb : lt w b
+    · simp only [Bool.false_eq_true, if_false, List.pairwise_cons]
+      refine ⟨?_, ih hm.2⟩
+      intro y hy
+      rcases (mem_insU w t y).mp hy with rfl | hy
+      · simp [leOf, hwb]
+      · exact hm.1 y hy
+    · simp only [if_true, List.pairwise_cons]
+      refine ⟨?_, hm.1, hm.2⟩
+      intro y hy
+      rcases List.mem_cons.mp hy with rfl | hy
+      · simp [leOf, hswo.asymm hwb]
+      · have hby := hm.1 y hy
+        simp only [leOf, Bool.not_eq_true'] at hby ⊢
+        cases hyw : lt y w with
+        | false => rfl
+        | true => have := hswo.trans _ _ _ hyw hwb; rw [hby] at this; cases this
+
+/-- the equivalence that `eraseDuplicates` hands to `std::unique` -/
+theorem pred_eq (lt : α → α → Bool) (a b : α) :
+    Gen.FlatSet.eraseDuplicates_pred lt a b = (!lt a b && !lt b a) := by
+  unfold Gen.FlatSet.eraseDuplicates_pred
+  cases lt a b <;> cases lt b a <;> rfl
+
+open Gen.FlatSet in
+/-- one more element in the sorted sequence, seen through `std::unique`: `insert_val` on the duplicate-free sequence -/
+theorem uniqueAux_insU (hswo : SWO lt) (m : List α) :
+    ∀ prev, (prev :: m).Pairwise (fun a b => leOf lt a b = true) → ∀ w, lt w prev = false →
+      prev :: uniqueAux (eraseDuplicates_pred lt) prev (insU lt w m)
+        = insV lt w (prev :: uniqueAux (eraseDuplicates_pred lt) prev m) := by
+  induction m with
+  | nil =>
+    intro prev _ w hwp
+    simp only [insU, uniqueAux, pred_eq, hwp, insV]
+    cases lt prev w <;> simp
+  | cons b t ih =>
+    intro prev hs w hwp
+    have hs' := List.pairwise_cons.mp hs
+    have hpb : lt b prev = false := by simpa [leOf] using hs'.1 b (by simp)
+    have hst : (b :: t).Pairwise (fun a b => leOf lt a b = true) := hs'.2
+    have hpt : (prev :: t).Pairwise (fun a b => leOf lt a b = true) :=
+      List.pairwise_cons.mpr ⟨fun y hy => hs'.1 y (List.mem_cons_of_mem _ hy), (List.pairwise_cons.mp hst).2⟩
+    simp only [insU]
+    cases hwb : lt w b
+    · -- b <= w
+      simp only [Bool.false_eq_true, if_false, uniqueAux, pred_eq, hpb, Bool.not_false, Bool.and_true]
+      cases hprevb : lt prev b
+      · -- prev equivalent to b
+        simp only [Bool.not_false, if_true]
+        exact ih prev hpt w hwp
+      · simp only [Bool.not_true, Bool.false_eq_true, if_false]
+        have hprevw : lt prev w = true := by
+          rcases hswo.cotrans prev w b hprevb with h' | h'
+          · exact h'
+          · rw [hwb] at h'; cases h'
+        rw [ih b hst w hwb]
+        simp [insV, hprevw]
+    · -- w < b
+      have hbw : lt b w = false := hswo.asymm hwb
+      have hprevb : lt prev b = true := by
+        rcases hswo.cotrans w prev b hwb with h' | h'
+        · rw [hwp] at h'; cases h'
+        · exact h'
+      simp only [if_true, uniqueAux, pred_eq, hwp, hpb, hprevb, hwb, hbw, Bool.not_false, Bool.and_true, Bool.not_true,
+        Bool.false_eq_true, if_false]
+      cases hprevw : lt prev w <;> simp [insV, hprevw, hwp, hwb, hbw]
+
+open Gen.FlatSet in
+theorem uniqueBy_insU (hswo : SWO lt) (m : List α) (hm : m.Pairwise (fun a b => leOf lt a b = true)) (w : α) :
+    uniqueBy (eraseDuplicates_pred lt) (insU lt w m) = insV lt w (uniqueBy (eraseDuplicates_pred lt) m) := by
+  cases m with
+  | nil => rfl
+  | cons b t =>
+    simp only [insU]
+    cases hwb : lt w b
+    · simp only [Bool.false_eq_true, if_false, uniqueBy]
+      exact uniqueAux_insU hswo t b hm w hwb
+    · have hbw : lt b w = false := hswo.asymm hwb
+      simp [uniqueBy, uniqueAux, pred_eq, hwb, hbw, insV]
+
+open Gen.FlatSet in
+theorem uniqueBy_foldl_insU (hswo : SWO lt) (ws : List α) :
+    ∀ m, m.Pairwise (fun a b => leOf lt a b = true) →
+      uniqueBy (eraseDuplicates_pred lt) (ws.foldl (fun acc w => insU lt w acc) m)
+        = ws.foldl (fun acc w => insV lt w acc) (uniqueBy (eraseDuplicates_pred lt) m) := by
+  induction ws with
+  | nil => intro m _; rfl
+  | cons w t ih =>
+    intro m hm
+    simp only [List.foldl_cons]
+    rw [ih _ (insU_pairwise hswo w m hm), uniqueBy_insU hswo m hm]
+
+open Gen.FlatSet in
+/-- sorting stably and keeping the first of every class of equivalent elements = inserting one by one in input order -/
+theorem uniqueBy_mergeSort (hswo : SWO lt) (ws : List α) :
+    uniqueBy (eraseDuplicates_pred lt) (ws.mergeSort (leOf lt)) = insertAll lt [] ws := by
+  rw [mergeSort_eq_foldr hswo, insertAll_eq_foldl_insV]
+  have := foldr_insL_eq_foldl_insU hswo ws []
+  simp only [List.foldr_nil, List.nil_append] at this
+  rw [← this, uniqueBy_foldl_insU hswo ws [] List.Pairwise.nil]
+  rfl
+
+theorem sorted_le (hswo : SWO lt) (l : List α) (hs : Sorted lt l) : l.Pairwise (fun a b => leOf lt a b = true) :=
+  List.Pairwise.imp (fun {a b} h => by simp [leOf, hswo.asymm h]) hs
+
+open Gen.FlatSet in
+theorem uniqueAux_sorted (a : α) (t : List α) (hs : Sorted lt (a :: t)) :
+    uniqueAux (eraseDuplicates_pred lt) a t = t := by
+  induction t generalizing a with
+  | nil => rfl
+  | cons b u ih =>
+    have h1 := List.pairwise_cons.mp hs
+    have hab : lt a b = true := h1.1 b (by simp)
+    simp only [uniqueAux, pred_eq, hab, Bool.not_true, Bool.false_and, Bool.false_eq_true, if_false]
+    rw [ih b h1.2]
+
+open Gen.FlatSet in
+theorem uniqueBy_sorted (l : List α) (hs : Sorted lt l) : uniqueBy (eraseDuplicates_pred lt) l = l := by
+  cases l with
+  | nil => rfl
+  | cons a t => simp only [uniqueBy]; rw [uniqueAux_sorted a t hs]
+
+/-- re-inserting the elements of a set into the empty set gives the set back -/
+theorem insertAll_nil_sorted (hswo : SWO lt) (l : List α) (hs : Sorted lt l) : insertAll lt [] l = l := by
+  rw [← uniqueBy_mergeSort hswo, List.mergeSort_of_pairwise (sorted_le hswo l hs), uniqueBy_sorted l hs]
+
+open Gen.FlatSet in
+/-- the composition performed by `insert(first, last)`: append, stable sort of the tail, in-place merge, unique -/
+theorem bulk_eq (hswo : SWO lt) (l : List α) (hs : Sorted lt l) (vs : List α) :
+    uniqueBy (eraseDuplicates_pred lt) (inplaceMerge lt (stableSortTail lt (l ++ vs) l.length) l.length)
+      = insertAll lt l vs := by
+  have e1 : stableSortTail lt (l ++ vs) l.length = l ++ vs.mergeSort (leOf lt) := by
+    simp [stableSortTail]; rfl
+  have e2 : inplaceMerge lt (l ++ vs.mergeSort (leOf lt)) l.length = List.merge l (vs.mergeSort (leOf lt)) (leOf lt) := by
+    simp [inplaceMerge]; rfl
+  rw [e1, e2, merge_eq_foldr hswo l (sorted_le hswo l hs), mergeSort_eq_foldr hswo, ← List.foldr_append]
+  have := foldr_insL_eq_foldl_insU hswo (l ++ vs) []
+  simp only [List.foldr_nil, List.nil_append] at this
+  rw [← this, uniqueBy_foldl_insU hswo _ [] List.Pairwise.nil]
+  have e3 : uniqueBy (eraseDuplicates_pred lt) ([] : List α) = [] := rfl
+  rw [e3, List.foldl_append, ← insertAll_eq_foldl_insV lt l [], insertAll_nil_sorted hswo l hs, ← insertAll_eq_foldl_insV]
+
+open Gen.FlatSet in
+/-- the composition performed by the range constructor / `operator=(vector&&)`: stable sort of everything, unique -/
+theorem bulk_ctor_eq (hswo : SWO lt) (vs : List α) :
+    uniqueBy (eraseDuplicates_pred lt) (stableSortTail lt vs 0) = insertAll lt [] vs := by
+  have e1 : stableSortTail lt vs 0 = vs.mergeSort (leOf lt) := by simp [stableSortTail]; rfl
+  rw [e1, uniqueBy_mergeSort hswo]
+
+/-! ### the generated bulk members
+
+Hypotheses: `SWO lt` (of the comparator object the member uses) and, where the set already has content, `Sorted lt l`: the
+hypotheses of the model's theorems about `insertAll`.  The call counts of these members only count calls made by FlatSet's own
+code (none): calls made inside `std::stable_sort` / `std::inplace_merge` / `std::unique` are not modelled. -/
+
+theorem eraseDuplicates_eq (lt : α → α → Bool) (l : List α) :
+    Gen.FlatSet.eraseDuplicates lt l = some (Gen.FlatSet.uniqueBy (Gen.FlatSet.eraseDuplicates_pred lt) l, (), 0) := rfl
+
+/-- `insert(first, last)` (flatset.hpp:216) -/
+theorem insert_range_eq (hswo : SWO lt) (l : List α) (hs : Sorted lt l) (vs : List α) :
+    Gen.FlatSet.insert_range lt l vs = some (insertAll lt l vs, (), 0) := by
+  simp only [Gen.FlatSet.insert_range, eraseDuplicates_eq, bulk_eq hswo l hs vs]
+
+/-- `insert(std::initializer_list)` (flatset.hpp:224) -/
+theorem insert_ilist_eq (hswo : SWO lt) (l : List α) (hs : Sorted lt l) (vs : List α) :
+    Gen.FlatSet.insert_ilist lt l vs = some (insertAll lt l vs, (), 0) := by
+  simp only [Gen.FlatSet.insert_ilist, insert_range_eq hswo l hs vs]
+
+/-- `operator=(std::initializer_list)` (flatset.hpp:166): the old content is dropped -/
+theorem assign_ilist_eq (hswo : SWO lt) (l : List α) (vs : List α) :
+    Gen.FlatSet.assign_ilist lt l vs = some (insertAll lt [] vs, (), 0) := by
+  simp only [Gen.FlatSet.assign_ilist, insert_range_eq hswo [] List.Pairwise.nil vs]
+
+/-- `operator=(vector_type&&)` (flatset.hpp:158, AMC_NONSTD_FEATURES) -/
+theorem assign_vector_eq (hswo : SWO lt) (l : List α) (v : List α) :
+    Gen.FlatSet.assign_vector lt l v = some (insertAll lt [] v, (), 0) := by
+  simp only [Gen.FlatSet.assign_vector, eraseDuplicates_eq, bulk_ctor_eq hswo v]
+
+/-- the range constructor (flatset.hpp:128): the new set stores `comp`, sorts with it and removes duplicates with it -/
+theorem ctor_range_eq (comp : α → α → Bool) (hswo : SWO comp) (vs : List α) :
+    Gen.FlatSet.ctor_range vs comp = some (comp, insertAll comp [] vs, 0) := by
+  simp only [Gen.FlatSet.ctor_range, eraseDuplicates_eq, bulk_ctor_eq hswo vs]
+
+/-- the range constructor without comparator (flatset.hpp:135): everything is done with a default-constructed comparator -/
+theorem ctor_range_alloc_eq (lt_default : α → α → Bool) (hswo : SWO lt_default) (vs : List α) :
+    Gen.FlatSet.ctor_range_alloc vs lt_default = some (lt_default, insertAll lt_default [] vs, 0) := by
+  simp only [Gen.FlatSet.ctor_range_alloc, ctor_range_eq lt_default hswo vs]
+
+theorem ctor_ilist_eq (comp : α → α → Bool) (hswo : SWO comp) (vs : List α) :
+    Gen.FlatSet.ctor_ilist vs comp = some (comp, insertAll comp [] vs, 0) := by
+  simp only [Gen.FlatSet.ctor_ilist, insert_range_eq hswo [] List.Pairwise.nil vs]
+
+theorem ctor_ilist_alloc_eq (lt_default : α → α → Bool) (hswo : SWO lt_default) (vs : List α) :
+    Gen.FlatSet.ctor_ilist_alloc vs lt_default = some (lt_default, insertAll lt_default [] vs, 0) := by
+  simp only [Gen.FlatSet.ctor_ilist_alloc, ctor_ilist_eq lt_default hswo vs]
+
+/-- the constructor from a vector (flatset.hpp:152, AMC_NONSTD_FEATURES) -/
+theorem ctor_vector_eq (comp : α → α → Bool) (hswo : SWO comp) (v : List α) :
+    Gen.FlatSet.ctor_vector v comp = some (comp, insertAll comp [] v, 0) := by
+  simp only [Gen.FlatSet.ctor_vector, eraseDuplicates_eq, bulk_ctor_eq hswo v]
+
+/-! ### `merge` (both overloads) against `mergeFrom` -/
+
+/-- one element of the model's merge loop -/
+def mergeStepM (lt : α → α → Bool) (acc : List α × List α) (v : α) : List α × List α :=
+  let r := insertVal lt acc.1 v
+  if r.2.2 then (r.1, acc.2) else (acc.1, acc.2 ++ [v])
+
+theorem mergeFrom_eq_foldl (lt : α → α → Bool) (l o : List α) : mergeFrom lt l o = o.foldl (mergeStepM lt) (l, []) := rfl
+
+/-- the elements that stay are collected from left to right -/
+theorem foldl_mergeStepM_kept (lt : α → α → Bool) (vs : List α) :
+    ∀ (l kept : List α), vs.foldl (mergeStepM lt) (l, kept)
+      = ((vs.foldl (mergeStepM lt) (l, [])).1, kept ++ (vs.foldl (mergeStepM lt) (l, [])).2) := by
+  induction vs with
+  | nil => intro l kept; simp
+  | cons v t ih =>
+    intro l kept
+    have hstep : ∀ k, mergeStepM lt (l, k) v
+        = if (insertVal lt l v).2.2 then ((insertVal lt l v).1, k) else (l, k ++ [v]) := fun k => rfl
+    simp only [List.foldl_cons, hstep]
+    cases (insertVal lt l v).2.2
+    · simp only [Bool.false_eq_true, if_false, List.nil_append]
+      rw [ih l (kept ++ [v]), ih l [v]]
+      simp
+    · simp only [if_true]
+      rw [ih _ kept]
+
+theorem foldl_mergeStepM_sorted (hswo : SWO lt) (vs : List α) :
+    ∀ (l kept : List α), Sorted lt l → Sorted lt (vs.foldl (mergeStepM lt) (l, kept)).1 := by
+  induction vs with
+  | nil => intro l kept hs; exact hs
+  | cons v t ih =>
+    intro l kept hs
+    have hstep : mergeStepM lt (l, kept) v
+        = if (insertVal lt l v).2.2 then ((insertVal lt l v).1, kept) else (l, kept ++ [v]) := rfl
+    simp only [List.foldl_cons, hstep]
+    cases (insertVal lt l v).2.2
+    · exact ih _ _ hs
+    · exact ih _ _ (insertVal_sorted hswo l hs v)
+
+/-- the body of the loop of `merge(FlatSet<T, C2, …>&)` is one `insert_val` -/
+theorem merge_other_step_eq (lt : α → α → Bool) (l : List α) (x : α) :
+    Gen.FlatSet.merge_other_step lt l x
+      = some ((insertValC lt l x).1, (insertValC lt l x).2.2.1, (insertValC lt l x).2.2.2) := by
+  have hle := lowerBound_le lt l x 0 l.length
+  unfold Gen.FlatSet.merge_other_step insertValC
+  generalize lowerBound lt l x 0 l.length = p at hle
+  obtain ⟨i, c⟩ := p
+  simp only at hle ⊢
+  by_cases hi : i = l.length
+  · subst hi; simp [List.insertIdx_length_self]
+  · obtain ⟨y, hy⟩ := getElem?_of_lt l i (by omega)
+    simp only [hi, hy, if_false]
+    cases lt x y <;> simp
+
+theorem foldErase_eq (hswo : SWO lt) (vs : List α) :
+    ∀ (l kept : List α), Sorted lt l →
+      ∃ c, Gen.FlatSet.foldErase (Gen.FlatSet.merge_other_step lt) vs l kept
+        = some ((vs.foldl (mergeStepM lt) (l, kept)).1, (vs.foldl (mergeStepM lt) (l, kept)).2, c) := by
+  induction vs with
+  | nil => intro l kept _; exact ⟨0, rfl⟩
+  | cons v t ih =>
+    intro l kept hs
+    have heq := insertValC_eq hswo l hs v
+    have h1 : (insertValC lt l v).1 = (insertVal lt l v).1 := congrArg (·.1) heq
+    have h2 : (insertValC lt l v).2.2.1 = (insertVal lt l v).2.2 := congrArg (·.2.2) heq
+    rw [Gen.FlatSet.foldErase, merge_other_step_eq]
+    simp only [List.foldl_cons, h1, h2]
+    have hstep : mergeStepM lt (l, kept) v
+        = ((insertVal lt l v).1, if (insertVal lt l v).2.2 then kept else kept ++ [v]) := by
+      unfold mergeStepM
+      simp only
+      cases hb : (insertVal lt l v).2.2
+      · simp [insertVal_noop l v hb]
+      · simp
+    rw [hstep]
+    obtain ⟨c, hc⟩ := ih (insertVal lt l v).1 (if (insertVal lt l v).2.2 then kept else kept ++ [v])
+      (insertVal_sorted hswo l hs v)
+    rw [hc]
+    exact ⟨_, rfl⟩
+
+/-- `merge(FlatSet<T, C2, Alloc, VecType>&)` (flatset.hpp:342), any comparator on the other set -/
+theorem merge_other_eq (hswo : SWO lt) (l : List α) (hs : Sorted lt l) (lt_o : α → α → Bool) (o : List α) :
+    ∃ c, Gen.FlatSet.merge_other lt l lt_o o = some ((mergeFrom lt l o).1, (mergeFrom lt l o).2, (), c) := by
+  obtain ⟨c, hc⟩ := foldErase_eq hswo o l [] hs
+  refine ⟨c, ?_⟩
+  unfold Gen.FlatSet.merge_other
+  rw [hc]
+  rfl
+
+/-! `merge(FlatSet&)` (flatset.hpp:358): the two-pointer loop.  It compares with the comparator object of `*this` only, so it
+needs the OTHER set to be ordered by that comparator too (`Sorted lt o`) — with a stateful comparator type two sets of the same
+type may be ordered differently; the model's `mergeFrom` has no such requirement. -/
+
+theorem lowerIdx_append_of_lt (A B : List α) (v : α) (hA : ∀ a ∈ A, lt a v = true)
+    (hB : ∀ b, B.head? = some b → lt b v = false) : lowerIdx lt (A ++ B) v = A.length := by
+  unfold lowerIdx
+  induction A with
+  | nil =>
+    cases B with
+    | nil => rfl
+    | cons b t => simp [hB b rfl]
+  | cons a t ih =>
+    simp only [List.cons_append, List.takeWhile, hA a (by simp), List.length_cons]
+    rw [ih (fun x hx => hA x (List.mem_cons_of_mem _ hx))]
+
+/-- a value above everything goes to the end -/
+theorem insertVal_append_end (A : List α) (v : α) (hA : ∀ a ∈ A, lt a v = true) :
+    insertVal lt A v = (A ++ [v], A.length, true) := by
+  have h := lowerIdx_append_of_lt (lt := lt) A [] v hA (by simp)
+  simp only [List.append_nil] at h
+  unfold insertVal
+  simp [h, List.insertIdx_length_self]
+
+theorem mergeFrom_all_above (_hswo : SWO lt) (R : List α) :
+    ∀ (A : List α), Sorted lt R → (∀ a ∈ A, ∀ r ∈ R, lt a r = true) →
+      R.foldl (mergeStepM lt) (A, []) = (A ++ R, []) := by
+  induction R with
+  | nil => intro A _ _; simp
+  | cons r t ih =>
+    intro A hs hA
+    have hs' := List.pairwise_cons.mp hs
+    simp only [List.foldl_cons]
+    have : mergeStepM lt (A, []) r = (A ++ [r], []) := by
+      unfold mergeStepM
+      simp [insertVal_append_end A r (fun a ha => hA a ha r (by simp))]
+    rw [this, ih (A ++ [r]) hs'.2]
+    · simp
+    · intro a ha x hx
+      rcases List.mem_append.mp ha with ha | ha
+      · exact hA a ha x (List.mem_cons_of_mem _ hx)
+      · simp only [List.mem_singleton] at ha; subst ha; exact hs'.1 x hx
+
+theorem insertIdx_append_length (A B : List α) (x : α) : (A ++ B).insertIdx A.length x = A ++ x :: B := by
+  induction A with
+  | nil => simp
+  | cons a t ih => simp [List.insertIdx_succ_cons, ih]
+
+/-- the state of the two-pointer loop: `*this` = A ++ B with `first1` after A, the other set = K ++ R with `first2` after K -/
+def mstate (A B K R : List α) : List α × List α × Nat × Nat × Nat × Nat :=
+  (A ++ B, K ++ R, A.length, A.length + B.length, K.length, K.length + R.length)
+
+/-- condition and body of the loop, as a function of the state -/
+def mstep (lt lt_o : α → α → Bool) (s : List α × List α × Nat × Nat × Nat × Nat) :
+    Option (Bool × (List α × List α × Nat × Nat × Nat × Nat) × Nat) :=
+  Gen.FlatSet.merge_step lt s.1 lt_o s.2.1 s.2.2.1 s.2.2.2.1 s.2.2.2.2.1 s.2.2.2.2.2
+
+/-- the other set is exhausted: the loop stops -/
+theorem mstep_done (lt lt_o : α → α → Bool) (A B K : List α) :
+    mstep lt lt_o (mstate A B K []) = some (false, mstate A B K [], 0) := by
+  simp [mstep, Gen.FlatSet.merge_step, mstate]
+
+/-- `*this` is exhausted: the rest of the other set is moved to the end, the loop stops -/
+theorem mstep_tail (lt lt_o : α → α → Bool) (A K : List α) (x1 : α) (R' : List α) :
+    ∃ f1 e1 f2 e2, mstep lt lt_o (mstate A [] K (x1 :: R')) = some (false, (A ++ x1 :: R', K, f1, e1, f2, e2), 0) := by
+  have e1 : List.take (K.length + (R'.length + 1)) (K ++ x1 :: R') = K ++ x1 :: R' := by
+    apply List.take_of_length_le; simp
+  have e2 : List.drop (K.length + (R'.length + 1)) (K ++ x1 :: R') = [] := by
+    apply List.drop_of_length_le; simp
+  refine ⟨A.length, A.length, K.length, K.length + (R'.length + 1), ?_⟩
+  simp [mstep, Gen.FlatSet.merge_step, mstate, e1, e2]
+
+theorem mstep_lt (lt lt_o : α → α → Bool) (A B' K R' : List α) (x0 x1 : α) (h01 : lt x0 x1 = true) :
+    mstep lt lt_o (mstate A (x0 :: B') K (x1 :: R')) = some (true, mstate (A ++ [x0]) B' K (x1 :: R'), 1) := by
+  have hx0 : (A ++ x0 :: B')[A.length]? = some x0 := by simp
+  have hx1 : (K ++ x1 :: R')[K.length]? = some x1 := by simp
+  simp only [mstep, Gen.FlatSet.merge_step, mstate, hx0, hx1, h01]
+  simp
+  omega
+
+theorem mstep_eqv (lt lt_o : α → α → Bool) (A B' K R' : List α) (x0 x1 : α) (h01 : lt x0 x1 = false) (h10 : lt x1 x0 = false) :
+    mstep lt lt_o (mstate A (x0 :: B') K (x1 :: R')) = some (true, mstate (A ++ [x0]) B' (K ++ [x1]) R', 2) := by
+  have hx0 : (A ++ x0 :: B')[A.length]? = some x0 := by simp
+  have hx1 : (K ++ x1 :: R')[K.length]? = some x1 := by simp
+  simp only [mstep, Gen.FlatSet.merge_step, mstate, hx0, hx1, h01, h10]
+  simp
+  omega
+
+theorem mstep_gt (lt lt_o : α → α → Bool) (A B' K R' : List α) (x0 x1 : α) (h01 : lt x0 x1 = false) (h10 : lt x1 x0 = true) :
+    mstep lt lt_o (mstate A (x0 :: B') K (x1 :: R')) = some (true, mstate (A ++ [x1]) (x0 :: B') K R', 2) := by
+  have hx0 : (A ++ x0 :: B')[A.length]? = some x0 := by simp
+  have hx1 : (K ++ x1 :: R')[K.length]? = some x1 := by simp
+  have i1 : (A ++ x0 :: B').insertIdx A.length x1 = A ++ x1 :: x0 :: B' := by
+    exact insertIdx_append_length A (x0 :: B') x1
+  have i2 : (K ++ x1 :: R').eraseIdx K.length = K ++ R' := by
+    rw [List.eraseIdx_append_of_length_le (Nat.le_refl _)]; simp
+  simp only [mstep, Gen.FlatSet.merge_step, mstate, hx0, hx1, h01, h10, i1, i2]
+  simp
+  omega
+
+theorem merge_loop_spec (hswo : SWO lt) (lt_o : α → α → Bool) (n : Nat) :
+    ∀ (A B K R : List α), B.length + R.length < n → Sorted lt (A ++ B) → Sorted lt R →
+      (∀ a ∈ A, ∀ r ∈ R, lt a r = true) →
+      ∃ f1 e1 f2 e2 c,
+        Gen.FlatSet.whileFuel (mstep lt lt_o) n (mstate A B K R)
+        = some (((R.foldl (mergeStepM lt) (A ++ B, [])).1, K ++ (R.foldl (mergeStepM lt) (A ++ B, [])).2, f1, e1, f2, e2), c) := by
+  induction n with
+  | zero => intro A B K R h; omega
+  | succ n ih =>
+    intro A B K R hn hsL hsR hAR
+    rw [Gen.FlatSet.whileFuel]
+    cases R with
+    | nil =>
+      rw [mstep_done]
+      simp only [Bool.false_eq_true, if_false, List.foldl_nil, List.append_nil, mstate]
+      exact ⟨_, _, _, _, _, rfl⟩
+    | cons x1 R' =>
+      cases B with
+      | nil =>
+        obtain ⟨f1, e1, f2, e2, h⟩ := mstep_tail lt lt_o A K x1 R'
+        have hall := mergeFrom_all_above hswo (x1 :: R') A hsR hAR
+        rw [h]
+        simp only [List.append_nil, hall, Bool.false_eq_true, if_false]
+        exact ⟨_, _, _, _, _, rfl⟩
+      | cons x0 B' =>
+        have hsR' := List.pairwise_cons.mp hsR
+        have hAx1 : ∀ a ∈ A, lt a x1 = true := fun a ha => hAR a ha x1 (by simp)
+        cases h01 : lt x0 x1
+        · cases h10 : lt x1 x0
+          · -- equivalent: both advance, x1 stays in the other set
+            rw [mstep_eqv lt lt_o A B' K R' x0 x1 h01 h10]
+            have hnot : insertVal lt (A ++ x0 :: B') x1 = (A ++ x0 :: B', A.length, false) := by
+              have hi := lowerIdx_append_of_lt (lt := lt) A (x0 :: B') x1 hAx1 (by intro b hb; cases hb; exact h01)
+              unfold insertVal
+              simp [hi, h10]
+            have hstep : mergeStepM lt (A ++ x0 :: B', []) x1 = (A ++ x0 :: B', [x1]) := by
+              unfold mergeStepM; simp [hnot]
+            simp only [List.foldl_cons, hstep, if_true]
+            rw [foldl_mergeStepM_kept lt R' (A ++ x0 :: B') [x1]]
+            have hA' : ∀ a ∈ A ++ [x0], ∀ r ∈ R', lt a r = true := by
+              intro a ha r hr
+              rcases List.mem_append.mp ha with ha | ha
+              · exact hAR a ha r (List.mem_cons_of_mem _ hr)
+              · simp only [List.mem_singleton] at ha; subst ha
+                rcases hswo.cotrans x1 a r (hsR'.1 r hr) with h' | h'
+                · rw [h10] at h'; cases h'
+                · exact h'
+            obtain ⟨f1, e1, f2, e2, c, hc⟩ := ih (A ++ [x0]) B' (K ++ [x1]) R'
+              (by simp only [List.length_cons] at hn; omega) (by simpa using hsL) hsR'.2 hA'
+            rw [hc]
+            simp only [List.append_assoc, List.singleton_append]
+            exact ⟨_, _, _, _, _, rfl⟩
+          · -- x1 < x0 : x1 moves in front of x0
+            rw [mstep_gt lt lt_o A B' K R' x0 x1 h01 h10]
+            have hins : insertVal lt (A ++ x0 :: B') x1 = (A ++ x1 :: x0 :: B', A.length, true) := by
+              have hi := lowerIdx_append_of_lt (lt := lt) A (x0 :: B') x1 hAx1 (by intro b hb; cases hb; exact h01)
+              unfold insertVal
+              simp [hi, h10, insertIdx_append_length]
+            have hstep : mergeStepM lt (A ++ x0 :: B', []) x1 = (A ++ x1 :: x0 :: B', []) := by
+              unfold mergeStepM; simp [hins]
+            simp only [List.foldl_cons, hstep, if_true]
+            have hA' : ∀ a ∈ A ++ [x1], ∀ r ∈ R', lt a r = true := by
+              intro a ha r hr
+              rcases List.mem_append.mp ha with ha | ha
+              · exact hAR a ha r (List.mem_cons_of_mem _ hr)
+              · simp only [List.mem_singleton] at ha; subst ha; exact hsR'.1 r hr
+            have hsL' : Sorted lt ((A ++ [x1]) ++ x0 :: B') := by
+              have := insertVal_sorted hswo (A ++ x0 :: B') hsL x1
+              rw [hins] at this
+              simpa using this
+            obtain ⟨f1, e1, f2, e2, c, hc⟩ := ih (A ++ [x1]) (x0 :: B') K R'
+              (by simp only [List.length_cons] at hn ⊢; omega) hsL' hsR'.2 hA'
+            rw [hc]
+            simp only [List.append_assoc, List.singleton_append]
+            exact ⟨_, _, _, _, _, rfl⟩
+        · -- x0 < x1 : first1 advances
+          rw [mstep_lt lt lt_o A B' K R' x0 x1 h01]
+          have hA' : ∀ a ∈ A ++ [x0], ∀ r ∈ x1 :: R', lt a r = true := by
+            intro a ha r hr
+            rcases List.mem_append.mp ha with ha | ha
+            · exact hAR a ha r hr
+            · simp only [List.mem_singleton] at ha; subst ha
+              rcases List.mem_cons.mp hr with rfl | hr
+              · exact h01
+              · exact hswo.trans _ _ _ h01 (hsR'.1 r hr)
+          obtain ⟨f1, e1, f2, e2, c, hc⟩ := ih (A ++ [x0]) B' K (x1 :: R')
+            (by simp only [List.length_cons] at hn ⊢; omega) (by simpa using hsL) hsR hA'
+          simp only [if_true]
+          rw [hc]
+          simp only [List.append_assoc, List.singleton_append]
+          exact ⟨_, _, _, _, _, rfl⟩
+
+/-- `merge(FlatSet&)` (flatset.hpp:358) -/
+theorem merge_eq (hswo : SWO lt) (l : List α) (hs : Sorted lt l) (lt_o : α → α → Bool) (o : List α) (ho : Sorted lt o) :
+    ∃ c, Gen.FlatSet.merge lt l lt_o o = some ((mergeFrom lt l o).1, (mergeFrom lt l o).2, (), c) := by
+  obtain ⟨f1, e1, f2, e2, c, hc⟩ := merge_loop_spec hswo lt_o (l.length + o.length + 1) [] l [] o (by omega)
+    (by simpa using hs) ho (by intro a ha; cases ha)
+  simp only [mstate, List.nil_append, List.length_nil, Nat.zero_add] at hc
+  refine ⟨c, ?_⟩
+  unfold Gen.FlatSet.merge
+  have : (fun s : List α × List α × Nat × Nat × Nat × Nat =>
+      Gen.FlatSet.merge_step lt s.1 lt_o s.2.1 s.2.2.1 s.2.2.2.1 s.2.2.2.2.1 s.2.2.2.2.2) = mstep lt lt_o := rfl
+  rw [this, hc]
+  rfl
 
 end AmcVerif.Bridge.FlatSet
